@@ -22,7 +22,7 @@ import (
 // with the same options) and (b), where the tree model defines it, the model fold.
 
 var c19Args = []string{
-	"a=1", "a=2", "a.b=1", "a.b=x", "a.0=x", "a.1=y", "a=[1,2]", "a=[3]", "a={b:1}", "a={c:[4]}", "b", "c=", "=1", "a=[1", `a="x`, "", "a=null", "a.b=[5]", "a=x=y",
+	"a=1", "a=2", "a.b=1", "a.b=x", "a.0=x", "a.1=y", "a=[1,2]", "a=[3]", "a={b:1}", "a={c:[4]}", "b", "c=", "=1", "a=[1", `a="x`, "", "a=null", "a.b=[5]", "a=x=y", "0.h=x", "0=top", "1.h=y",
 }
 
 type c19OptSet struct {
@@ -205,14 +205,15 @@ func c19KV(name string, maxLen int) *core.Space {
 						res = core.Fail("fold", "SET-RETURNS-NIL-ON-FAILURE", fmt.Sprintf("%s: Set returned nil for a failing argument (%v)", step, stepErr))
 						return
 					}
-					got, gerr := canonOfConfig(fv.Config(), opts...)
-					want, werr := canonOfConfig(refInit, opts...)
+					got, gerr := canonBoth(fv.Config(), opts...)
+					want, werr := canonBoth(refInit, opts...)
 					if (gerr == nil) != (werr == nil) || got != want {
 						res = core.Fail("fold", "CONFIG-DIFFERS "+c.os.Name, fmt.Sprintf("%s: flag config %s (%v), sequential merges with the same options %s (%v)", step, got, gerr, want, werr))
 						return
 					}
 					if modelOK && refErr == nil && gerr == nil {
-						if mw := model.Canon(); got != mw {
+						dictOnly, _ := canonOfConfig(fv.Config(), opts...)
+						if mw := (&tree.Node{K: tree.Cont, D: model.D}).Canon(); dictOnly != mw {
 							res = core.Fail("model", "MODEL-DIFFERS "+c.os.Name, fmt.Sprintf("%s: flag config %s, model fold %s", step, got, mw))
 							return
 						}
@@ -253,6 +254,22 @@ func c19KV(name string, maxLen int) *core.Space {
 	}
 }
 
+// canonBoth: canonical text of the dict part and of the top-level list part.
+func canonBoth(c *ucfg.Config, opts ...ucfg.Option) (string, error) {
+	d, err := canonOfConfig(c, opts...)
+	if err != nil {
+		return "", err
+	}
+	if c.IsArray() {
+		var l []interface{}
+		if err := c.Unpack(&l, opts...); err != nil {
+			return "", err
+		}
+		d += " + list " + tree.CanonGo(l)
+	}
+	return d, nil
+}
+
 func jsonNorm(v interface{}) interface{} {
 	switch x := v.(type) {
 	case map[string]interface{}:
@@ -271,13 +288,16 @@ func jsonNorm(v interface{}) interface{} {
 
 // file flags with an in-memory loader table
 func c19Files(maxLen int) *core.Space {
-	files := []string{"one.a", "two.a", "list.b", "fail.b", "unknown.x", "noext", "nil.a"}
+	files := []string{"one.a", "two.a", "list.b", "fail.b", "unknown.x", "noext", "nil.a", "toplist.a", "toplist2.b"}
 	errLoad := errors.New("loading failed")
 	content := map[string]interface{}{
 		"one.a":  M{"a": M{"b": 1}, "l": L{"x"}},
 		"two.a":  M{"a": M{"c": 2}, "l": L{"y", "z"}},
 		"list.b": M{"l": L{M{"k": 1}}},
 		"noext":  M{"n": true},
+		// files whose top level is a list
+		"toplist.a":  L{M{"id": 1}, "x"},
+		"toplist2.b": L{M{"id": 2}},
 	}
 	nF, nO := len(files), 5
 	radices := []int{nO, 2}
@@ -359,8 +379,8 @@ func c19Files(maxLen int) *core.Space {
 						res = core.Fail("files", "FIRST-ERROR-NOT-KEPT", fmt.Sprintf("%s: flag error=%v, expected %v", step, fv.Error(), refErr))
 						return
 					}
-					got, _ := canonOfConfig(fv.Config(), opts...)
-					want, _ := canonOfConfig(ref, opts...)
+					got, _ := canonBoth(fv.Config(), opts...)
+					want, _ := canonBoth(ref, opts...)
 					if got != want {
 						res = core.Fail("files", "CONFIG-DIFFERS "+os.Name, fmt.Sprintf("%s: flag config %s, sequential merges with the same options %s", step, got, want))
 						return
@@ -398,7 +418,7 @@ func init() {
 	core.Register(&core.Check{
 		ID:    "C19",
 		Level: "model_checking",
-		Rule:  "every sequence of Set calls (all argument strings from an 19-element alphabet incl. dotted/indexed keys, lists, objects, bare keys, empty values, malformed values) x 7 option sets x autoBool x nil/pre-filled initial config is run on a real FlagValue; after every prefix the flag's config, error state and String() are compared with the fold of NewFrom+Merge with the same options (the statement's definition) and with the tree-model fold; file flags analogously with an in-memory loader table; non-trivial = at least two Set calls; states = distinct (config, error) outcomes",
+		Rule:  "every sequence of Set calls (all argument strings from an 22-element alphabet incl. dotted/indexed keys, lists, objects, bare keys, empty values, malformed values) x 7 option sets x autoBool x nil/pre-filled initial config is run on a real FlagValue; after every prefix the flag's config, error state and String() are compared with the fold of NewFrom+Merge with the same options (the statement's definition) and with the tree-model fold; file flags analogously with an in-memory loader table; non-trivial = at least two Set calls; states = distinct (config, error) outcomes",
 		Assumptions: []string{
 			"sequences of length <=3 (quick) / <=4 (thorough)",
 			"the differential oracle uses ucfg.NewFrom/Merge themselves (decided by C01/C05); the model fold applies to option sets without VarExp/field options and to keys without empty segments",
